@@ -49,6 +49,8 @@ class SCase:
         return m
 
     def oracle(self, io):
+        if io and io[0] == T_PANIC:
+            return ["the constructor panicked"]
         if not io or io[0] != 0 or self.oracle_fn is None:
             return None
         outs = io[1:]
@@ -115,7 +117,7 @@ def medad_oracle(n, x0, xs):
     return fn
 
 
-def scalar_sel(name, n, x0, xs, kind, extra=None):
+def scalar_sel(name, n, x0, xs, kind, extra=None, hi=254):
     line = "method %s %d %016x %d %s" % (name, n, f2bits(x0), len(xs), gens.hexs(xs))
     a = "(%d) %s" % (n, coq_float(x0))
     terms = {
@@ -130,7 +132,7 @@ def scalar_sel(name, n, x0, xs, kind, extra=None):
     term = terms[name] % (a, flist(xs))
     lo = 2 if name == "MedianAbsDev" else 1
     ofn = None
-    if lo <= n <= 254 and all(finite(v) for v in xs) and finite(x0):
+    if lo <= n <= hi and all(finite(v) for v in xs) and finite(x0):
         ofn = medad_oracle(n, x0, xs) if name == "MedianAbsDev" else sel_oracle(name, n, x0, xs)
     ex = {"length": n, "steps": len(xs)}
     ex.update(extra or {})
@@ -238,7 +240,7 @@ def rev_oracle(name, left, right, x0, xs):
     return fn
 
 
-def rev_case(name, left, right, x0, xs, kind, extra=None):
+def rev_case(name, left, right, x0, xs, kind, extra=None, hi=254):
     line = "method %s %d %d %016x %d %s" % (name, left, right, f2bits(x0), len(xs), gens.hexs(xs))
     a = "(%d) (%d) %s" % (left, right, coq_float(x0))
     if name == "ReversalSignal":
@@ -246,7 +248,7 @@ def rev_case(name, left, right, x0, xs, kind, extra=None):
     else:
         nx = "upper_rev_next" if name.startswith("Upper") else "lower_rev_next"
         term = "run_gen (rev_new %s) %s encA None %s" % (a, nx, flist(xs))
-    valid = left >= 1 and right >= 1 and left + right < 254
+    valid = left >= 1 and right >= 1 and left + right < hi
     ofn = None
     # the definition is stated under the API convention "the first input is the construction value"
     if valid and xs and f2bits(xs[0]) == f2bits(x0) and all(finite(v) for v in xs):
